@@ -116,6 +116,12 @@ fn parse_prefix(name: &str, fragment: &yaml::Yaml) -> Result<Option<Prefix>, Err
                 }
             }
             let prefix = prefix.unwrap();
+            if prefix.prefixlen > 128 {
+                return Err(Error::InvalidConfig(format!(
+                    "{} length {} is longer than an IPv6 address",
+                    name, prefix.prefixlen
+                )));
+            }
             Ok(Some(Prefix {
                 addr: prefix.addr,
                 prefixlen: prefix.prefixlen,
@@ -247,6 +253,13 @@ fn parse_pref64(name: &str, fragment: &yaml::Yaml) -> Result<Option<Pref64>, Err
             }
         }
         if let Some(prefix) = prefix {
+            /* RFC8781 Section 4: only these lengths can be advertised */
+            if ![32, 40, 48, 56, 64, 96].contains(&prefix.prefixlen) {
+                return Err(Error::InvalidConfig(format!(
+                    "{} prefix length must be one of 32, 40, 48, 56, 64 or 96, not {}",
+                    name, prefix.prefixlen
+                )));
+            }
             Ok(Some(Pref64 {
                 prefix: prefix.addr,
                 lifetime: lifetime.unwrap_or_else(|| std::time::Duration::from_secs(600)),
